@@ -84,6 +84,10 @@ PLANS["C13"]["quick"].append({"cfg": "dbg", "prof": "C13io", "runs": 100_000})
 PLANS["C13"]["thorough"] += [{"cfg": c, "prof": "C13io", "runs": 4_000_000} for c in ("dbg", "rel")]
 PLANS["C17"]["quick"].append({"cfg": "dbg", "prof": "C17big", "runs": 60_000})
 PLANS["C17"]["thorough"] += [{"cfg": c, "prof": "C17big", "runs": 2_000_000} for c in ("dbg", "alloc")]
+# capacity-40 batches: size thresholds inside the crate ("when more than K elements ...")
+for _p in ("C01", "C03", "C05", "C06", "C07", "C08", "C09", "C10", "C12", "C13", "C20"):
+    PLANS[_p]["quick"].append({"cfg": "dbg", "prof": _p + "big", "runs": 30_000})
+    PLANS[_p]["thorough"] += [{"cfg": c, "prof": _p + "big", "runs": 1_500_000} for c in ("dbg", "rel")]
 PLANS["C04"]["quick"].append({"cfg": "dbg", "prof": "C04io", "mode": "garbage", "runs": 100_000})
 PLANS["C04"]["thorough"] += [
     {"cfg": "dbg", "prof": "C04io", "mode": "garbage", "runs": 4_000_000},
